@@ -3,7 +3,7 @@ Run-time contract: for every node and every parameter name the processor declare
 JSON-safe form of the value the node actually resolved (configuration > context > signature default) and
 processor.parameter_sources names that channel; no parameter the node used is missing.
 Bound: 3 processors with (required | defaulted) parameters x the 2^k placements of each parameter in {configuration, context,
-neither} x values {float, int, string-free}."""
+neither}; 4 nested mapping values x reversed insertion order at every depth (canonical bytes, delta collector)."""
 import json, sys, tempfile, logging, itertools
 logging.disable(logging.CRITICAL)
 from pathlib import Path
@@ -66,6 +66,40 @@ for label, proc, upstream in CASES:
                 failures.append(dict(case, **{"class": "parameter-value-is-not-the-resolved-value", "got": params[n], "want": want_val}))
         if len(samples) < 2:
             samples.append({"case": label, "placement": dict(zip(names, placement)), "parameters": params, "sources": sources})
+# ---- digests are functions of content: equal contexts (same mapping content at every depth, other insertion order) give the
+#      same canonical bytes, and a key rewritten with equal content is not reported as updated ---------------------------------
+from semantiva.trace._utils import canonical_json_bytes
+from semantiva.trace.delta_collector import DeltaCollector
+
+
+def reorder(x, flip):
+    if isinstance(x, dict):
+        items = [(k, reorder(v, flip)) for k, v in x.items()]
+        return dict(reversed(items) if flip else items)
+    if isinstance(x, list):
+        return [reorder(v, flip) for v in x]
+    return x
+
+
+VALUES = [
+    {"a": 1, "b": 2.5},
+    {"outer": {"x": 1, "y": [1, 2, {"p": 1, "q": 2}]}, "flat": 3},
+    {"cfg": {"gain": {"lo": 0.1, "hi": 2.0}, "tags": {"b": 1, "a": 2}}, "n": None},
+    [{"k2": 2, "k1": 1}, {"z": {"m": 1, "n": 2}}],
+]
+for idx, v in enumerate(VALUES):
+    evaluations += 1
+    distinct.add(("canonical-bytes", idx))
+    if canonical_json_bytes(v) != canonical_json_bytes(reorder(v, True)):
+        failures.append({"class": "digest-depends-on-mapping-insertion-order", "value": repr(v)[:200]})
+    if isinstance(v, dict):
+        pre, post = {"payload": v, "other": 1}, {"payload": reorder(v, True), "other": 1}
+        evaluations += 1
+        delta = DeltaCollector(enable_hash=True, enable_repr=False).compute(pre, post, [])
+        upd = delta.get("updated_keys", delta.get("updated", []))
+        if "payload" in upd:
+            failures.append({"class": "key-rewritten-with-equal-content-reported-as-updated", "value": repr(v)[:200]})
+
 import shutil
 shutil.rmtree(tmp, ignore_errors=True)
 print(json.dumps({"bound": "3 processors (source with a default, operation with a required parameter, operation with required + defaulted parameter) x every placement of each parameter in {configuration, context, neither}",
